@@ -352,8 +352,11 @@ def w_rotinv(arg):
         npt = cls.rotatedirections(M)
         kind = 'orthogonal' if np.allclose(M @ M.T, np.eye(dim)) else ('diagonal' if np.allclose(M, np.diag(np.diag(M))) else 'general')
         for shape in ((), (2, 2), (3,)):
-            for variant in range(3):
+            for variant in range(4):
                 T = rand_exp(cls, dim, rng, shape, parity=True)
+                if variant == 3:   # separated form: for each n one entry per l = n, n-2, ... (what separate() produces)
+                    T = cls([(n, l, np.where((np.array([sum(cls.ind2pow[p]) for p in range(nmono(dim, l))]) % 2 == n % 2).reshape((-1,) + (1,) * len(shape)),
+                                             rng.normal(size=(nmono(dim, l),) + shape), 0).astype(complex)) for n in range(2, L + 1) for l in range(n % 2, n + 1, 2)])
                 if variant == 1: T = rand_exp(cls, dim, rng, shape, ns=[0, 1, 2, 3, 4], parity=True)
                 if variant == 2:   # un-reduced: every term at l = n
                     T = cls([(n, n, np.where((np.array([sum(cls.ind2pow[p]) for p in range(nmono(dim, n))]) % 2 == n % 2).reshape((-1,) + (1,) * len(shape)),
@@ -362,6 +365,12 @@ def w_rotinv(arg):
                 t0 = snapshot(T)
                 Rt = T.rotate(npt)
                 acc.check(all(close(val(Rt, p), val(t0, M @ p)) for p in ps), 'rotated-expansion-at-p-is-original-at-transformed-point', '%s shape %s' % (kind, shape), sig=('rot', kind, variant))
+                # the same statement through the library's own evaluator (radial functions |q|^n supplied per term)
+                lib = lambda E, q: E(np.array(q, dtype=float), {(n, l): (lambda x, n=n: x ** float(n)) for (n, l, c) in E.coefflist})
+                try:
+                    acc.check(all(close(lib(Rt, p), val(t0, M @ p)) for p in ps), 'rotated-expansion-at-p-is-original-at-transformed-point(library evaluator)', '%s shape %s variant %d' % (kind, shape, variant), sig=('rotlib', kind, variant))
+                except Exception as ex:
+                    acc.check(False, 'rotated-expansion-at-p-is-original-at-transformed-point(library evaluator)', '%s: %s' % (type(ex).__name__, str(ex)[:200]), sig=('rotlib', kind, variant))
                 acc.check(same(t0, T), 'rotate-leaves-the-operand-unchanged', kind, sig=('rotframe', kind))
                 X = cls(t0); Y = X.irotate(npt)
                 acc.check(Y is X and all(close(val(X, p), val(t0, M @ p)) for p in ps), 'irotate-in-place-is-original-at-transformed-point', '%s shape %s' % (kind, shape), sig=('irot', kind, variant))
